@@ -6,7 +6,7 @@ import re
 
 from ..lin import Lin
 from ..avals import *   # noqa
-from ..decide import Runs, need_ge0, need_eq0, definite, soft, iterations
+from ..decide import benign_unknown, Runs, need_ge0, need_eq0, definite, soft, iterations
 from ..report import Ob, PROVED, REFUTED, UNDECIDED, func_where, ASSUMPTIONS, Failure
 from ..model import norm_text, AnalysisError
 from . import common
@@ -15,6 +15,10 @@ from .c19 import ctor_of
 
 CSV_VALUE_KWARGS = {'skipinitialspace', 'quoting', 'quotechar', 'escapechar', 'delimiter', 'doublequote', 'strict', 'restval',
                     'restkey', 'dialect'}
+
+
+def it_resolve(p, v):
+    return p.interp.resolve(v)
 
 
 def check(prog, res, tier):
@@ -92,7 +96,7 @@ def check(prog, res, tier):
         res.add(runs.judge('C20.a', 'mci_csv_to_ipm: plain csv.DictReader on the input, rows filtered by emptiness only, IpmWriter gets the '
                                     'output file, out_encoding, config bit_config and blocked = not no1014blocking; finalised',
                            func_where(fi), 'IpmWriter(out_ipm, encoding=out_encoding, blocked=blocked, iso_config=...) / DictReader(in_csv)',
-                           chk, rule='C20.a.csv_to_ipm', unknown_ok=lambda u_: True))
+                           chk, rule='C20.a.csv_to_ipm', unknown_ok=benign_unknown))
 
         def chk_rows(p, mode):
             """every row is written: one write per loop iteration, with the dict built from that row"""
@@ -108,7 +112,7 @@ def check(prog, res, tier):
                     fails.append(definite(f'{n} records are written per CSV row', head.node))
             return fails
         res.add(runs.judge('C20.a', 'mci_csv_to_ipm writes exactly one record per CSV row', func_where(fi), 'for row in reader: writer.write(record)',
-                           chk_rows, rule='C20.a.rows', unknown_ok=lambda u_: True))
+                           chk_rows, rule='C20.a.rows', unknown_ok=benign_unknown))
 
     # ---- C20.a ipm -> csv
     if prog.has_func('cli.mci_ipm_to_csv.mci_ipm_to_csv'):
@@ -161,7 +165,7 @@ def check(prog, res, tier):
         res.add(runs2.judge('C20.a', 'mci_ipm_to_csv: IpmReader gets the input file, in_encoding, config bit_config and blocked = not '
                                      'no1014blocking; csv.DictWriter on the output restricted to the configured columns',
                             func_where(fi2), 'IpmReader(in_ipm, encoding=in_encoding, blocked=blocked, iso_config=...)', chk2,
-                            rule='C20.a.ipm_to_csv', unknown_ok=lambda u_: True))
+                            rule='C20.a.ipm_to_csv', unknown_ok=benign_unknown))
 
         def chk_rows2(p, mode):
             fails = []
@@ -180,17 +184,38 @@ def check(prog, res, tier):
                         val = ev.items[1] if isinstance(ev, TupleV) and len(ev.items) == 2 else None
                         o = getattr(val, 'origin', None)
                         if not (isinstance(val, SymV) and isinstance(o, tuple) and o and o[0] in ('item', 'method')):
+                            # recognised derivations that change falsy values (x or '', x if x else ...): a violation;
+                            # anything else is simply not recognised
+                            known = isinstance(o, tuple) and o and o[0] in ('boolop', 'ifexp', 'Or', 'And', 'BoolOp', 'IfExp')
                             fails.append(definite(f'a CSV cell is not the record value itself but {val!r} '
-                                                  f'({"; ".join(map(str, o[1:2])) if isinstance(o, tuple) else ""}): values such as 0 are altered', e.node))
+                                                  f'({"; ".join(map(str, o[1:2])) if isinstance(o, tuple) else ""}): values such as 0 are altered',
+                                                  e.node, firm=bool(known)))
                         elif o[0] == 'method' and o[2] != 'get':
                             fails.append(definite(f'a CSV cell is derived through .{o[2]}() from the record value', e.node))
+            # the dict written for a record must not be an object shared by all iterations that is only added to:
+            # values of an earlier record would stay in the columns a later record does not have
+            for first, last, s0, s1, head in iterations(p, func=dfi.short):
+                li = [e for e in p.events if e.kind == 'loop-iter' and e.node is head.node and first <= e.seq < last]
+                firsts = [e for e in p.events if e.kind == 'loop-iter' and e.node is head.node and e.data.get('mark') is not None]
+                if not li or not firsts:
+                    continue
+                mark0 = min(e.data['mark'] for e in firsts)
+                for e in p.events:
+                    if e.kind == 'method' and e.data['name'] == 'writerow' and first < e.seq < last and e.data['args']:
+                        row = it_resolve(p, e.data['args'][0])
+                        if isinstance(row, DictV) and row.id < mark0:
+                            cleared = any(x.kind == 'method' and x.data['name'] == 'clear' and x.data.get('recv') is row and first < x.seq < e.seq
+                                          for x in p.events)
+                            if not cleared:
+                                fails.append(definite('the same dict object is written for every record and only updated in between: a column '
+                                                      'that a later record does not have keeps the value of an earlier record', e.node))
             hdr = [e for e in p.events if e.kind == 'method' and e.data['name'] == 'writeheader']
             if p.outcome == 'return' and len(hdr) != 1:
                 fails.append(definite(f'the header row is written {len(hdr)} times'))
             return fails
         res.add(runs2.judge('C20.a', 'dicts_to_csv writes the header once and one row per record', func_where(dfi),
                             'writer.writeheader(); for data_item in data_list: writer.writerow(...)', chk_rows2, rule='C20.a.rows2',
-                            unknown_ok=lambda u_: True))
+                            unknown_ok=benign_unknown))
 
     # ---- C20.b producible columns
     cfg = prog.config_literal()
@@ -251,3 +276,32 @@ def check(prog, res, tier):
         return []
     res.add(runs3.judge('C20.c', 'text cells of numeric / date columns are converted (int(), date parsing) before they are rendered',
                         func_where(pfi), 'int(field_data) / _get_date_from_string(field_data)', chk3))
+
+    # the date parser itself: the cell is handed to the parsing call as it is, with no option that re-orders its components
+    if prog.has_func('iso8583._get_date_from_string'):
+        gfi = prog.func('iso8583._get_date_from_string')
+
+        def entry4(it):
+            v = it.sym_str('cell', lo=1)
+            it.user.update(v=v)
+            return it.call_function(gfi, [v], {})
+        runs4 = Runs(prog, entry4, res=res)
+        PARSERS = ('dateutil.parser.parse', 'datetime.datetime.fromisoformat', 'datetime.datetime.strptime')
+        REORDER = {'dayfirst', 'yearfirst', 'fuzzy', 'fuzzy_with_tokens', 'default', 'ignoretz', 'tzinfos', 'parserinfo'}
+
+        def chk4(p, mode):
+            fails = []
+            it = p.interp
+            for e in p.evs('ext-call'):
+                if e.data['callee'] not in PARSERS:
+                    continue
+                a = e.data['args']
+                if not a or it.resolve(a[0]) is not it.user['v']:
+                    fails.append(soft(f'{e.data["callee"]} is given {a[0] if a else None!r}, not the cell text', e.node))
+                extra = sorted(set(k for k in e.data['kwargs'] if k != '**') & REORDER)
+                if e.data['callee'] == 'dateutil.parser.parse' and (extra or len(a) > 1):
+                    fails.append(definite(f'the date parser is called with {extra or "extra positional arguments"}: an ISO date such as '
+                                          f'2021-03-04 is read with its components in another order / defaults filled in', e.node))
+            return fails
+        res.add(runs4.judge('C20.c', 'the date text of a cell is parsed as written (no option that swaps day and month or fills in defaults)',
+                            func_where(gfi), 'parser.parse(field_data)', chk4, rule='C20.c.parser', unknown_ok=benign_unknown))
